@@ -135,6 +135,10 @@ def gen_world(rng: random.Random, tier: str) -> dict:
             # a different number of reference channels per dataset (the split itself does not require equal counts)
             w["ref_ind"] = [rng.sample(range(c), rng.randint(1, c - 1)) for c in nch]
         w["ref_as"] = rng.choices(["list", "tuple", "npint"], weights=[0.75, 0.15, 0.10])[0]
+        if nds >= 2 and rng.random() < 0.06:
+            # degenerate but legal: the very same array object (and reference list object) given for two datasets
+            w["ndat"][1], w["nch"][1], w["ref_ind"][1] = w["ndat"][0], w["nch"][0], list(w["ref_ind"][0])
+            w["alias01"] = True
     return w
 
 
@@ -164,6 +168,8 @@ def build_arrays(world):
         else:
             owners.append(a)
         arrays.append(a)
+    if world.get("alias01") and len(arrays) >= 2:
+        arrays[1], owners[1] = arrays[0], owners[0]
     return arrays, owners
 
 
@@ -497,6 +503,8 @@ def run_case(seed, tier="quick", case=None, known=()):
         user_ref = [tuple(r) for r in user_ref]
     elif user_ref is not None and world.get("ref_as") == "npint":
         user_ref = [[np.int64(c) for c in r] for r in user_ref]
+    if user_ref is not None and world.get("alias01") and len(user_ref) >= 2:
+        user_ref[1] = user_ref[0]
     world["_user_list"], world["_user_ref"] = user_list, user_ref
     m = Model(world, arrays)
     log = EventLog(seed)
@@ -768,6 +776,10 @@ def shrink_candidates(case):
     if w.get("int_fs"):
         w2 = copy.deepcopy(w)
         w2["int_fs"] = False
+        yield {"world": w2, "ops": ops}
+    if w.get("alias01"):
+        w2 = copy.deepcopy(w)
+        w2.pop("alias01")
         yield {"world": w2, "ops": ops}
     if w.get("ref_as", "list") != "list":
         w2 = copy.deepcopy(w)
